@@ -449,6 +449,31 @@ class MdibReplayer:
             self.proj.map_c[rec['c']] = st.Handle
         self.handed[('C', rec['c'])] = st
 
+    def _ctx_entity(self, c):
+        from .mdibharness import MAP_D  # noqa: F401
+        d = 'pc'
+        return self.mdib.entities.by_handle(self.conc(d))
+
+    def _do_EntityUpdateContextState(self, rec):
+        ent = self._ctx_entity(rec['c'])
+        handle = self.proj.map_c[rec['c']]
+        apply_tok(ent.states[handle], rec['t'])
+        self.mgr.write_entity(ent, [handle])
+        self.handed[('E', rec['c'])] = ent
+
+    def _do_EntityNewContextState(self, rec):
+        ent = self._ctx_entity(rec['c'])
+        handle = self.proj.map_c[rec['c']]
+        ent.new_state(handle)
+        self.mgr.write_entity(ent, [handle])
+        self.handed[('E', rec['c'])] = ent
+
+    def _do_EntityDeleteContextState(self, rec):
+        ent = self._ctx_entity(rec['c'])
+        handle = self.proj.map_c[rec['c']]
+        ent.states.pop(handle)
+        self.mgr.write_entity(ent, [handle])
+
     def _do_DisassociateAll(self, rec):
         ign = None if rec['ign'] == 'none' else self.proj.map_c[rec['ign']]
         self.mgr.disassociate_all(self.conc(rec['d']), ignored_handle=ign)
